@@ -1,9 +1,20 @@
 use std::collections::{HashMap, HashSet};
 use std::path::Path;
+#[cfg(not(dandavison_delta_verif_shuttle))]
 use std::sync::atomic::AtomicUsize;
+#[cfg(not(dandavison_delta_verif_shuttle))]
 use std::sync::{Arc, Condvar, Mutex, MutexGuard};
 
+#[cfg(not(dandavison_delta_verif_shuttle))]
 use lazy_static::lazy_static;
+
+// Verification hook: run the protocol below on shuttle's controlled scheduler.
+#[cfg(dandavison_delta_verif_shuttle)]
+use shuttle::lazy_static;
+#[cfg(dandavison_delta_verif_shuttle)]
+use shuttle::sync::atomic::AtomicUsize;
+#[cfg(dandavison_delta_verif_shuttle)]
+use shuttle::sync::{Arc, Condvar, Mutex, MutexGuard};
 use sysinfo::{Pid, PidExt, Process, ProcessExt, ProcessRefreshKind, SystemExt};
 
 use crate::utils::DELTA_ATOMIC_ORDERING;
@@ -59,6 +70,9 @@ lazy_static! {
 // delta was called by this process (or called by something which called delta and it),
 // try looking up this information in the process tree.
 pub fn start_determining_calling_process_in_thread() {
+    // Verification hook: `std::thread` below then names shuttle's thread module.
+    #[cfg(dandavison_delta_verif_shuttle)]
+    use shuttle as std;
     // The handle is neither kept nor returned nor joined but dropped, so the main
     // thread can exit early if it does not need to know its parent process.
     std::thread::Builder::new()
@@ -77,6 +91,12 @@ pub fn start_determining_calling_process_in_thread() {
             determine_done.notify_all();
         })
         .unwrap();
+}
+
+// Verification hook: a `static` shuttle atomic keeps its value across executions.
+#[cfg(dandavison_delta_verif_shuttle)]
+pub fn verif_reset_caller_info_source() {
+    CALLER_INFO_SOURCE.store(CALLER_GUESSED, DELTA_ATOMIC_ORDERING);
 }
 
 // delta starts the process, so it is known.
@@ -124,6 +144,12 @@ pub fn calling_process() -> Box<CallingProcess> {
 }
 
 fn determine_calling_process() -> CallingProcess {
+    // Verification hook: the scan of the process table is replaced by a scenario-chosen guess.
+    #[cfg(dandavison_delta_verif_shuttle)]
+    #[allow(unreachable_code)]
+    {
+        return crate::verif_hooks::sim_guess();
+    }
     calling_process_cmdline(ProcInfo::new(), describe_calling_process)
         .unwrap_or(CallingProcess::None)
 }
